@@ -48,7 +48,7 @@ fn key(t: &Tri<ClipVert<u8>>) -> F {
     t.0[0].pos.z() + t.0[1].pos.z() + t.0[2].pos.z()
 }
 
-// @ob props=C06 tier=quick kind=B cfg=core-std timeout=1800
+// @ob props=C06 tier=thorough kind=B cfg=core-std timeout=7200
 // @fn depth_sort
 // @bound 2 triangles; complete in the depths (all finite z in [-1e6, 1e6])
 // @clause depth sorting orders triangles by the sort key the code uses (the sum of the three vertex depths): non-decreasing for FrontToBack, non-increasing for BackToFront; the result is a permutation of the input (each tagged triangle still present once, carrying its own depths); so for triangles with disjoint depth ranges BackToFront delivers painter's order
